@@ -276,8 +276,9 @@ def _get_type_info(cls, cls_name, cls_bases, cls_dict, attrs):
     extends = cls_dict.get('__extends__', None)
 
     # user did not specify explicit base class so let's try to derive it from
-    # the actual class hierarchy
-    if extends is None:
+    # the actual class hierarchy. a customized class has the parent of the class
+    # it was customized from, which customize() passes in.
+    if extends is None and cls_dict.get('__orig__', None) is None:
         # we don't want origs end up as base classes
         orig = cls_dict.get("__orig__", None)
         if orig is None:
